@@ -25,10 +25,12 @@ def Covers : Head → Tmpl → Prop
   | .atom a, v => v = .const a
   | .node l n, v => ∃ vs, v = .node l vs ∧ vs.length = n
   | .float lo hi, v => ∃ x, v = .const (.flt x) ∧ Num.le lo x = true ∧ Num.le x hi = true
-  | .inactive tag, v => (∃ one k cs d s, v = .choice tag one k cs d s) ∨ (∃ lo hi, v = .floatv tag lo hi)
+  | .inactive tag, v => (∃ one k cs d s, v = .choice tag one k cs d s) ∨ (∃ lo hi, v = .floatv tag lo hi) ∨
+      (∃ cid, v = .custom tag cid)
+  | .any, _ => True
 
 section
-variable (W : Nat → Bool)
+variable (W : Cfg)
 
 theorem shapeL_length (ts vs : List Tmpl) (h : shapeL W ts vs = true) : vs.length = ts.length := by
   induction ts generalizing vs with
@@ -127,7 +129,17 @@ theorem heads_cover (c : Tmpl) : ∀ v, shapeT W c v = true → ∃ h ∈ heads 
       split at h
       · simp only [decide_eq_true_eq] at h
         obtain ⟨rfl, rfl, rfl⟩ := h
-        exact ⟨.inactive tag, by simp [heads, hW], Or.inr ⟨_, _, rfl⟩⟩
+        exact ⟨.inactive tag, by simp [heads, hW], Or.inr (Or.inl ⟨_, _, rfl⟩)⟩
+      · cases h
+  | hcustom tag cid =>
+    intro v h
+    by_cases hW : W tag = true
+    · exact ⟨.any, by simp [heads, hW], trivial⟩
+    · simp only [shapeT, hW, Bool.false_eq_true, if_false] at h
+      split at h
+      · simp only [decide_eq_true_eq] at h
+        obtain ⟨rfl, rfl⟩ := h
+        exact ⟨.inactive tag, by simp [heads, hW], Or.inr (Or.inr ⟨_, rfl⟩)⟩
       · cases h
 
 theorem matchHeadL_of_mem (cands : List Tmpl) (c : Tmpl) (h : Head) (hc : c ∈ cands)
@@ -172,6 +184,7 @@ theorem egoT_const_inv (b : Atom) (v : Tmpl) (ds : List DNA) (h : egoT W (.const
   | node l vs => simp [egoT] at h
   | choice tag one k cs d s => simp [egoT] at h
   | floatv tag lo hi => simp [egoT] at h
+  | custom tag cid => simp [egoT] at h
 
 theorem egoT_node_inv (l : Label) (kids : List Tmpl) (v : Tmpl) (ds : List DNA) (h : egoT W (.node l kids) v = .ok ds) :
     ∃ vs, v = .node l vs ∧ egoL W kids vs = .ok ds := by
@@ -184,6 +197,7 @@ theorem egoT_node_inv (l : Label) (kids : List Tmpl) (v : Tmpl) (ds : List DNA) 
   | const c => simp [egoT] at h
   | choice tag one k cs d s => simp [egoT] at h
   | floatv tag lo hi => simp [egoT] at h
+  | custom tag cid => simp [egoT] at h
 
 /-- Claim B: a template that encodes a value matches every head covering that value. -/
 theorem ego_matchHead (a : Tmpl) : ∀ v ds h, egoT W a v = .ok ds → Covers h v → matchHead W a h = true := by
@@ -212,7 +226,8 @@ theorem ego_matchHead (a : Tmpl) : ∀ v ds h, egoT W a v = .ok ds → Covers h 
         simp only [matchHead, Atom.num?, Bool.and_eq_true]
         exact ⟨Num.le_trans _ _ _ hlo hpe.2, Num.le_trans _ _ _ hpe.1 hhi⟩
     | node l n => obtain ⟨vs, hv, _⟩ := hcov; cases hv
-    | inactive tag => rcases hcov with ⟨_, _, _, _, _, hv⟩ | ⟨_, _, hv⟩ <;> cases hv
+    | inactive tag => rcases hcov with ⟨_, _, _, _, _, hv⟩ | ⟨_, _, hv⟩ | ⟨_, hv⟩ <;> cases hv
+    | any => simp [matchHead]
   | hnode l kids _ =>
     intro v ds h hego hcov
     obtain ⟨vs, rfl, hL⟩ := egoT_node_inv W l kids v ds hego
@@ -225,7 +240,8 @@ theorem ego_matchHead (a : Tmpl) : ∀ v ds h, egoT W a v = .ok ds → Covers h 
       simp only [Tmpl.node.injEq] at hv
       obtain ⟨rfl, rfl⟩ := hv
       simp [matchHead, ← hlen, hn]
-    | inactive tag => rcases hcov with ⟨_, _, _, _, _, hv⟩ | ⟨_, _, hv⟩ <;> cases hv
+    | inactive tag => rcases hcov with ⟨_, _, _, _, _, hv⟩ | ⟨_, _, hv⟩ | ⟨_, hv⟩ <;> cases hv
+    | any => simp [matchHead]
   | hchoice tag one k cands dst so ih =>
     intro v ds h hego hcov
     by_cases hW : W tag = true
@@ -273,7 +289,8 @@ theorem ego_matchHead (a : Tmpl) : ∀ v ds h, egoT W a v = .ok ds → Covers h 
                   simp only [Tmpl.node.injEq] at hv
                   obtain ⟨rfl, rfl⟩ := hv
                   simp [matchHead, hW, ← hn, hlen']
-                | inactive tag' => rcases hcov with ⟨_, _, _, _, _, hv⟩ | ⟨_, _, hv⟩ <;> cases hv
+                | inactive tag' => rcases hcov with ⟨_, _, _, _, _, hv⟩ | ⟨_, _, hv⟩ | ⟨_, hv⟩ <;> cases hv
+                | any => simp [matchHead, hW]
             · cases hitems
     · simp only [egoT, hW, Bool.false_eq_true, if_false] at hego
       split at hego
@@ -286,11 +303,13 @@ theorem ego_matchHead (a : Tmpl) : ∀ v ds h, egoT W a v = .ok ds → Covers h 
           | float lo hi => obtain ⟨x, hx, _⟩ := hcov; cases hx
           | node l'' n => obtain ⟨vs', hv, _⟩ := hcov; cases hv
           | inactive tag'' =>
-            rcases hcov with ⟨_, _, _, _, _, hv⟩ | ⟨_, _, hv⟩
+            rcases hcov with ⟨_, _, _, _, _, hv⟩ | ⟨_, _, hv⟩ | ⟨_, hv⟩
             · simp only [Tmpl.choice.injEq] at hv
               obtain ⟨rfl, _⟩ := hv
               simp [matchHead, hW]
             · cases hv
+            · cases hv
+          | any => simp [matchHead, hW]
         · cases hego
       · cases hego
   | hfloat tag lo hi =>
@@ -314,7 +333,8 @@ theorem ego_matchHead (a : Tmpl) : ∀ v ds h, egoT W a v = .ok ds → Covers h 
             simp only [matchHead, hW, if_true, Bool.and_eq_true]
             exact ⟨Num.le_trans _ _ _ hr.1 hhi, Num.le_trans _ _ _ hlo hr.2⟩
           | node l'' n => obtain ⟨vs', hv, _⟩ := hcov; cases hv
-          | inactive tag' => rcases hcov with ⟨_, _, _, _, _, hv⟩ | ⟨_, _, hv⟩ <;> cases hv
+          | inactive tag' => rcases hcov with ⟨_, _, _, _, _, hv⟩ | ⟨_, _, hv⟩ | ⟨_, hv⟩ <;> cases hv
+          | any => simp [matchHead, hW]
         · cases hego
       · cases hego
     · simp only [egoT, hW, Bool.false_eq_true, if_false] at hego
@@ -328,11 +348,37 @@ theorem ego_matchHead (a : Tmpl) : ∀ v ds h, egoT W a v = .ok ds → Covers h 
           | float lo'' hi'' => obtain ⟨x, hx, _⟩ := hcov; cases hx
           | node l'' n => obtain ⟨vs', hv, _⟩ := hcov; cases hv
           | inactive tag'' =>
-            rcases hcov with ⟨_, _, _, _, _, hv⟩ | ⟨_, _, hv⟩
+            rcases hcov with ⟨_, _, _, _, _, hv⟩ | ⟨_, _, hv⟩ | ⟨_, hv⟩
             · cases hv
             · simp only [Tmpl.floatv.injEq] at hv
               obtain ⟨rfl, _⟩ := hv
               simp [matchHead, hW]
+            · cases hv
+          | any => simp [matchHead, hW]
+        · cases hego
+      · cases hego
+  | hcustom tag cid =>
+    intro v ds h hego hcov
+    by_cases hW : W tag = true
+    · simp [matchHead, hW]
+    · simp only [egoT, hW, Bool.false_eq_true, if_false] at hego
+      split at hego
+      · rename_i tag' cid'
+        split at hego
+        · rename_i heq
+          obtain ⟨rfl, rfl⟩ := heq
+          cases h with
+          | atom a' => simp [Covers] at hcov
+          | float lo'' hi'' => obtain ⟨x, hx, _⟩ := hcov; cases hx
+          | node l'' n => obtain ⟨vs', hv, _⟩ := hcov; cases hv
+          | inactive tag'' =>
+            rcases hcov with ⟨_, _, _, _, _, hv⟩ | ⟨_, _, hv⟩ | ⟨_, hv⟩
+            · cases hv
+            · cases hv
+            · simp only [Tmpl.custom.injEq] at hv
+              obtain ⟨rfl, _⟩ := hv
+              simp [matchHead, hW]
+          | any => simp [matchHead, hW]
         · cases hego
       · cases hego
 
@@ -376,10 +422,11 @@ theorem headDistinctL_iff (ts : List Tmpl) : headDistinctL W ts = true ↔ ∀ t
   | cons c cs ih => simp [headDistinctL, ih]
 
 /-- The decidable head-level check implies the semantic distinguishability. -/
-theorem headDistinct_sound (t : Tmpl) : wfT t = true → headDistinct W t = true → DistT W t := by
+theorem headDistinct_sound (hP : HooksPlain W) (t : Tmpl) : wfT t = true → headDistinct W t = true → DistT W t := by
   induction t using Tmpl.ind_t with
   | hconst a => intro _ _; simp [DistT]
   | hfloat tag lo hi => intro _ _; simp [DistT]
+  | hcustom tag cid => intro _ _; simp [DistT]
   | hnode l kids ih =>
     intro hwf hhd
     simp only [wfT] at hwf
@@ -398,7 +445,7 @@ theorem headDistinct_sound (t : Tmpl) : wfT t = true → headDistinct W t = true
     have hap := hhd.2
     simp only [hW, Bool.not_true, Bool.false_or, matchFns_eq, headLists_eq] at hap
     have hwfci := (wfL_iff cands).mp hwf.2 ci (List.mem_of_getElem? hi)
-    obtain ⟨hd, hhd', hcov⟩ := heads_cover W ci v (DsD_all W ci hwfci d v hdec).2
+    obtain ⟨hd, hhd', hcov⟩ := heads_cover W ci v (DsD_all W hP ci hwfci d v hdec).2
     obtain ⟨ds', hds'⟩ := encode_ok_ego W cj v d' henc
     have h1 := ego_matchHead W cj v ds' hd hds' hcov
     have h2 := candsApart_spec W cands hap i j ci cj hji hi hj hd hhd'
